@@ -7,13 +7,13 @@
 EXTENDS Integers, Sequences, TLC, Json, IOUtils, PyList
 Data == JsonDeserialize(IOEnv.TRACE_FILE)
 Traces == Data.traces
-VARIABLES tid, l, list, verdict
-vars == <<tid, l, list, verdict>>
+VARIABLES tid, l, list, verdict, held      \* held: value of a row the caller read earlier and still holds
+vars == <<tid, l, list, verdict, held>>
 Ev(t) == Traces[t].ev
 B(x) == x      \* None is logged as NoneV (-9999)
 Items(v, n) == [k \in 1..n |-> v + k - 1]
 
-Init == tid \in 1..Len(Traces) /\ l = 1 /\ list = <<>> /\ verdict = "ok"
+Init == tid \in 1..Len(Traces) /\ l = 1 /\ list = <<>> /\ verdict = "ok" /\ held = NoneV
 
 Ok(s) == [valid |-> TRUE, s |-> s]
 Invalid == [valid |-> FALSE, s |-> <<>>]
@@ -23,6 +23,7 @@ Effect(e, drop) ==
     [] e.k = "append_multiple" -> Ok(DropOldest(list \o Items(e.v, e.n), drop))
     [] e.k = "delete" -> IF e.i >= 0 /\ e.i < Len(list) THEN Ok(PyDel(list, e.i)) ELSE Invalid
     [] e.k = "flush" -> Ok(<<>>)
+    [] e.k = "append_held" -> IF held # NoneV THEN Ok(DropOldest(Append(list, held), drop)) ELSE Invalid
     [] e.k = "setitem" -> IF PyIndexOK(list, e.i) THEN Ok(PySet(list, e.i, e.v)) ELSE Invalid
     [] e.k = "setslice" -> LET m == SliceLen(Len(list), B(e.a), B(e.b))
                            IN IF m = e.n THEN Ok(PySetSlice(list, B(e.a), B(e.b), Items(e.v, m))) ELSE Invalid
@@ -46,15 +47,21 @@ Step ==
   /\ verdict = "ok" /\ l <= Len(Ev(tid))
   /\ LET e == Ev(tid)[l] drop == Traces[tid].hdr.drop IN
      IF e.k = "reads"
-     THEN /\ verdict' = ReadsVerdict(e) /\ UNCHANGED list
+     THEN /\ verdict' = ReadsVerdict(e) /\ UNCHANGED <<list, held>>
+     ELSE IF e.k = "hold"      \* the caller reads row i and keeps the returned object (a list would hand out the row itself)
+     THEN /\ UNCHANGED list
+          /\ IF PyIndexOK(list, e.i) /\ e.ok /\ e.r = PyGet(list, e.i)
+             THEN held' = e.r /\ verdict' = "ok"
+             ELSE held' = held /\ verdict' = "hold:getitem"
      ELSE LET post == Effect(e, drop) IN
-          IF ~post.valid
-          THEN /\ verdict' = (IF e.exc = "none" THEN e.k \o ":accepted-an-operation-the-list-refuses" ELSE "ok")
-               /\ UNCHANGED list
-          ELSE IF e.exc # "none"
-               THEN /\ verdict' = e.k \o ":raises:" \o e.exc /\ UNCHANGED list
-               ELSE /\ list' = post.s
-                    /\ verdict' = (IF e.vis = post.s THEN "ok" ELSE e.k \o ":visible-rows-differ")
+          /\ UNCHANGED held
+          /\ IF ~post.valid
+             THEN /\ verdict' = (IF e.exc = "none" THEN e.k \o ":accepted-an-operation-the-list-refuses" ELSE "ok")
+                  /\ UNCHANGED list
+             ELSE IF e.exc # "none"
+                  THEN /\ verdict' = e.k \o ":raises:" \o e.exc /\ UNCHANGED list
+                  ELSE /\ list' = post.s
+                       /\ verdict' = (IF e.vis = post.s THEN "ok" ELSE e.k \o ":visible-rows-differ")
   /\ l' = l + 1 /\ UNCHANGED tid
 Spec == Init /\ [][Step]_vars
 Finished == verdict # "ok" \/ l > Len(Ev(tid))
